@@ -10,9 +10,15 @@ points of small order), SEC 1 2.3.3/2.3.4 (point encodings)."""
 
 SIG = {
     'gcd': {'sort': 'int[nat]', 'uf': True,
-            'facts': ['result >= 0', '(a != 0 or b != 0) ==> result >= 1', 'b == 0 ==> result == abs(a)', 'a == 0 ==> result == abs(b)']},
+            'facts': ['result >= 0', 'ite(a != 0, result >= 1, True)', 'ite(b != 0, result >= 1, True)', 'ite(b == 0, result == abs(a), True)',
+                      'ite(a == 0, result == abs(b), True)']},
     'inverse': {'sort': 'int[nat]', 'uf': True,
-                'facts': ['(m > 0 and spec.keys.gcd(u, m) == 1) ==> (0 <= result and result < m and (u * result) % m == 1 % m)']},
+                'facts': ['ite(m > 0, result < m, True)', 'ite(m > 0, ite(spec.keys.gcd(u, m) == 1, (u * result) % m == 1 % m, True), True)']},
+    # verdict of the probabilistic primality test (True = PROBABLY_PRIME, False = COMPOSITE); C14 proves the test sound
+    'probable_prime': {'sort': 'bool', 'uf': True},
+    # FIPS 180-4 SHA-512 and FIPS 202 SHAKE256 (first n octets of the output): values uninterpreted (C03)
+    'sha512': {'sort': 'bytes', 'uf': True, 'facts': ['len(result) == 64']},
+    'shake256': {'sort': 'bytes', 'uf': True, 'facts': ['len(result) == n']},
 }
 
 
@@ -33,8 +39,13 @@ def inverse(u, m):
     pass
 
 
-# ====================================================================================================== primality
-SIG['probable_prime'] = {'sort': 'bool', 'uf': True}
+# ====================================================================================================== primality / hashes
+def sha512(data):
+    pass
+
+
+def shake256(data, n):
+    pass
 
 
 def probable_prime(n):
